@@ -695,7 +695,11 @@ var $makeSlice = (typ, length, capacity = length) => {
 
 var $structTypes = {};
 var $structType = (pkgPath, fields) => {
-    var typeKey = $mapArray(fields, f => { return f.name + "," + f.typ.id + "," + f.tag; }).join("$");
+    // Unexported field names of different packages are different, and an embedded field is
+    // not identical to a named field of the same type.
+    var typeKey = $mapArray(fields, f => {
+        return f.name + "," + f.typ.id + "," + f.tag + "," + (f.embedded ? "e" : "") + "," + (f.exported ? "" : pkgPath);
+    }).join("$");
     var typ = $structTypes[typeKey];
     if (typ === undefined) {
         var string = "struct { " + $mapArray(fields, f => {
